@@ -239,6 +239,10 @@ func (rn *runner) value(vc *valCase) {
 	n := set.Count()
 	rn.r.Count("values", 1)
 	rn.r.Count("encodings:"+rn.sp.name, int64(n))
+	if vc.fam == "order" {
+		rn.r.Count("order:values", 1)
+		rn.r.Count("order:encodings:"+rn.sp.name, int64(n))
+	}
 	for i := 0; i < n; i++ {
 		rn.one(vc, i, set.At(i), nil)
 	}
@@ -560,8 +564,23 @@ func (rn *runner) checkIntact(vc *valCase, e enc, c Case, res map[string]any, pa
 		if mm := diff(exp, res["r"], ""); mm != nil {
 			cls := classifyMismatch(sp, vc.v, e, mm)
 			rn.violate(vc, e, "repr", cls, fmt.Sprintf("%s: %s at path %q: %s", d, how, mm.Path, mm.Msg), c, e.B)
+		} else if vc.fam == "order" {
+			// measured: members of the distinct-element containers found at their position / key
+			rn.r.Count("order:intact_decodes_equal", 1)
+			rn.r.Count("order:members_compared_in_place", seqMembers(vc.v))
 		}
 	}
+}
+
+// seqMembers: number of members of the V.Seq containers of v.
+func seqMembers(v *V) int64 {
+	var n int64
+	v.walk(func(x *V) {
+		if x.Rep && x.Seq {
+			n += int64(x.N)
+		}
+	})
+	return n
 }
 
 func (rn *runner) checkPrefix(vc *valCase, e enc, c Case, pre []byte, isErr bool, errText string, pan string) {
